@@ -85,10 +85,9 @@ access(all) contract D {
 
 var dLocation = common.AddressLocation{Address: tygen.PreludeAddress, Name: "D"}
 
-const imports = "import C from 0x1\nimport D from 0x1\n"
 
 // scriptSource / txSource are the programs for parameter type annotation src.
-func scriptSource(src string) string {
+func scriptSource(imports, src string) string {
 	return imports + "access(all) fun main(x: " + src + "): AnyStruct {\n    log(\"in\")\n    let r: [AnyStruct] = [x.getType().identifier, x.getType().isSubtype(of: Type<" + src + ">()), x]\n    return r\n}\n"
 }
 
@@ -96,7 +95,7 @@ func scriptSource(src string) string {
 // transaction reports the type through the log and - where every value of the
 // parameter type is storable (deep = true) - saves the received argument to
 // /storage/c29 of the signer, from where readBackSource exports it.
-func txSource(src string, deep bool) string {
+func txSource(imports, src string, deep bool) string {
 	save := ""
 	if deep {
 		save = "        acct.storage.save(x, to: /storage/c29)\n"
@@ -106,11 +105,11 @@ func txSource(src string, deep bool) string {
 
 const readBackSource = "access(all) fun main(): AnyStruct {\n    return getAuthAccount<auth(Storage) &Account>(0x1).storage.copy<AnyStruct>(from: /storage/c29)!\n}\n"
 
-func source(src string, script bool, deep bool) string {
+func (w *world) source(src string, script bool, deep bool) string {
 	if script {
-		return scriptSource(src)
+		return scriptSource(w.imports, src)
 	}
-	return txSource(src, deep)
+	return txSource(w.imports, src, deep)
 }
 
 // alwaysStorable: every value of the type can be saved to account storage
@@ -157,35 +156,64 @@ func alwaysStorable(t sema.Type, depth int) bool {
 	return subtype(t, sema.NumberType) || subtype(t, sema.PathType)
 }
 
-// world is everything shared (read-only after construction).
+// world is one deployment (read-only after construction).
+//
+//	A: tygen's prelude contract C plus contract D at 0x1 (parameter types of the type universe)
+//	B: cdcval's prelude contract C at 0x1 (the composites of the value universe are right-typed here)
 type world struct {
-	ledger *rt.Ledger
-	dElab  *sema.Elaboration
-	types  *typeTable
+	name     string
+	ledger   *rt.Ledger
+	imports  string                      // import lines of every program
+	cChecker *sema.Checker               // checker of contract C
+	elabs    map[string]*sema.Elaboration // location ID -> elaboration, for checking programs
+	types    *typeTable
+	poolIDs  []string // composite types of the right-typed value pool, most useful first
 }
 
 var (
-	worldOnce sync.Once
-	theWorld  *world
+	worldMu sync.Mutex
+	worlds  = map[string]*world{}
 )
 
-func getWorld() *world {
-	worldOnce.Do(func() {
+func getWorld(name string) *world {
+	worldMu.Lock()
+	defer worldMu.Unlock()
+	if w, ok := worlds[name]; ok {
+		return w
+	}
+	var w *world
+	tt := &typeTable{composites: map[common.TypeID]*sema.CompositeType{}, interfaces: map[common.TypeID]*sema.InterfaceType{}}
+	switch name {
+	case "A":
 		l := tygen.NewLedger()
 		rt.Deploy(l, tygen.PreludeAddress, "D", contractD, false)
 		ch, err := tygen.CheckProgram(contractD, dLocation, nil)
 		if err != nil {
 			panic(fmt.Sprintf("args: contract D does not check: %v", err))
 		}
-		tt := &typeTable{composites: map[common.TypeID]*sema.CompositeType{}, interfaces: map[common.TypeID]*sema.InterfaceType{}}
+		w = &world{name: name, ledger: l, imports: "import C from 0x1\nimport D from 0x1\n", cChecker: tygen.PreludeChecker(),
+			elabs:   map[string]*sema.Elaboration{dLocation.ID(): ch.Elaboration},
+			poolIDs: []string{"C.S2", "C.S", "C.S3", "C.Inner", "C.En", "D.K", "D.P", "D.W", "D.Rec"}}
 		for _, e := range []*sema.Elaboration{tygen.PreludeChecker().Elaboration, ch.Elaboration} {
-			e.ForEachGlobalType(func(_ string, v *sema.Variable) {
-				collectNominal(v.Type, tt)
-			})
+			e.ForEachGlobalType(func(_ string, v *sema.Variable) { collectNominal(v.Type, tt) })
 		}
-		theWorld = &world{ledger: l, dElab: ch.Elaboration, types: tt}
-	})
-	return theWorld
+	case "B":
+		l := rt.NewLedger()
+		rt.Deploy(l, tygen.PreludeAddress, "C", cdcval.PreludeContract, false)
+		ch, err := cdcval.PreludeChecker()
+		if err != nil {
+			panic(fmt.Sprintf("args: cdcval prelude does not check: %v", err))
+		}
+		w = &world{name: name, ledger: l, imports: "import C from 0x1\n", cChecker: ch,
+			elabs:   map[string]*sema.Elaboration{tygen.PreludeLocation.ID(): ch.Elaboration},
+			poolIDs: []string{"C.S", "C.Node", "C.Box", "C.En", "C.Emp", "C.S2", "C.W"}}
+		ch.Elaboration.ForEachGlobalType(func(_ string, v *sema.Variable) { collectNominal(v.Type, tt) })
+	default:
+		panic("args: unknown world " + name)
+	}
+	w.types = tt
+	worlds[name] = w
+	return w
 }
 
 func collectNominal(t sema.Type, tt *typeTable) {
@@ -212,7 +240,7 @@ func collectNominal(t sema.Type, tt *typeTable) {
 // paramType resolves the sema type of parameter annotation src with the real
 // checker (nil + error if the script does not check).
 func (w *world) paramType(src string) (sema.Type, error) {
-	ch, err := tygen.CheckProgram(scriptSource(src), common.ScriptLocation{0x29}, map[string]*sema.Elaboration{dLocation.ID(): w.dElab})
+	ch, err := tygen.CheckProgram(scriptSource(w.imports, src), common.ScriptLocation{0x29}, w.elabs)
 	if err != nil {
 		return nil, err
 	}
@@ -243,6 +271,14 @@ var extraParams = []string{
 // rejected before any argument is looked at (not importable): the run must fail with a user error on every argument.
 var nonImportableParams = []string{"@C.R", "&Int", "fun(): Int", "C", "@[C.R]", "D.Ev", "@D.Res?", "[&Int]", "{String: &Int}"}
 
+// parameter types of world B: over the nominal types of the value universe
+var worldBParams = []string{
+	"AnyStruct", "AnyStruct?", "[AnyStruct]", "{String: AnyStruct}", "HashableStruct", "{HashableStruct: AnyStruct}",
+	"C.S", "C.S2", "C.Node", "C.Box", "C.Emp", "C.W", "C.En", "C.S?", "[C.S]", "{String: C.S}", "{C.En: C.S?}", "{Int: C.S}",
+	"{C.I}", "[{C.I, C.I2}]", "{C.J}?", "[C.Node?]", "[C.Box]", "{Address: C.Box}", "[C.S2; 2]", "[C.S; 2]", "{String: [C.S]}",
+	"[Int]", "{String: Int}", "[Int?]", "{Int: Int}", "{Address: AnyStruct}", "Type", "[Type]",
+}
+
 func (w *world) params(depth2 bool) (out []param, skipped []string) {
 	add := func(src, kind string, depth int) {
 		t, err := w.paramType(src)
@@ -251,6 +287,12 @@ func (w *world) params(depth2 bool) (out []param, skipped []string) {
 			return
 		}
 		out = append(out, param{Source: src, Kind: kind, Sema: t, Depth: depth})
+	}
+	if w.name == "B" {
+		for _, src := range worldBParams {
+			add(src, "worldB", 1)
+		}
+		return
 	}
 	for _, ty := range tygen.Universe(1) {
 		if !ty.Denotable() || ty.Resource || !importable(ty.Sema) {
@@ -385,7 +427,7 @@ func newGoodGen(w *world, o *oracle) *goodGen {
 		g.poolT = append(g.poolT, n)
 	}
 	// composites of the deployed contracts, in a fixed order (most useful first)
-	for _, id := range []string{"C.S2", "C.S", "C.S3", "C.Inner", "C.En", "D.K", "D.P", "D.W", "D.Rec"} {
+	for _, id := range w.poolIDs {
 		ct := w.types.composites[common.AddressLocation{Address: tygen.PreludeAddress, Name: id[:1]}.TypeID(nil, id)]
 		if ct == nil {
 			panic("args: no composite " + id)
